@@ -28,7 +28,10 @@ MANIFEST = {
             "layout and decode-after-encode, staking key at account/2/0, Byron HD-path recovery; extracted model vs "
             "implementation on seeds x index paths x schemes x networks.",
     "note": "HMAC/PBKDF2/SHA-512/Blake2b/ChaCha20-Poly1305 and the ed25519 group are oracles; cbor2 decoding of "
-            "untrusted input is an oracle; Bech32 text layer abstract (decode after encode as hypothesis).",
+            "untrusted input is an oracle; Bech32 text layer abstract (decode after encode as hypothesis) in the original "
+            "theorems. LINKED: the *_concrete theorems put Shelley addresses on the Bech32 model of C10 (the abstract law is false "
+            "of the real codec; needed instead: the four configured HRPs are well-formed -- computed -- and Blake2b-224 returns "
+            "bytes); the link.ada_*_c entries run the Bech32 layer inside the extracted model.",
     "technique": "Coq proof (bitwise lemmas decided over all byte values, modular arithmetic, abstract Z-module) + "
                  "generated-constant obligations + extracted-model differential run + direct recomputation",
     "ref": "7/C18",
